@@ -96,6 +96,49 @@ MUTANTS = [
      "                if tens.shape != shape:\n", "                if False:\n", 1),
     ("c20_init_no_deepcopy", "C20", "xitorch/_core/packer.py",
      "        self._obj = deepcopy(obj, memo)\n", "        self._obj = obj\n", 1),
+    # ---------------- C11
+    ("c11_cache_revert", "C11", "xitorch/_core/linop.py",
+     "        if not cls.__dict__.get(\"_implementation_checked\", False):\n",
+     "        if not cls._implementation_checked:\n", 1),
+    ("c11_flags_on_base", "C11", "xitorch/_core/linop.py",
+     "            cls._is_rmv_implemented = cls.__check_if_implemented(\"_rmv\")\n",
+     "            LinearOperator._is_rmv_implemented = cls.__check_if_implemented(\"_rmv\")\n", 1),
+    ("c11_add_rmv_forget_mul", "C11", "xitorch/_core/linop.py",
+     "        return self.a.rmv(x) + self.mul * self.b.rmv(x)\n",
+     "        return self.a.rmv(x) + self.b.rmv(x)\n", 1),
+    ("c11_matmul_rmv_order", "C11", "xitorch/_core/linop.py",
+     "        return self.b.rmv(self.a.rmv(x))\n", "        return self.a.rmv(self.b.rmv(x))\n", 1),
+    ("c11_mul_mv_drop_f", "C11", "xitorch/_core/linop.py",
+     "        return self.a._mv(x) * self.f\n", "        return self.a._mv(x)\n", 1),
+    ("c11_H_no_conj", "C11", "xitorch/_core/linop.py",
+     "            return LinearOperator.m(self.fullmatrix().transpose(-2, -1).conj())\n",
+     "            return LinearOperator.m(self.fullmatrix().transpose(-2, -1))\n", 1),
+    ("c11_rmm_fallback_uses_mv", "C11", "xitorch/_core/linop.py",
+     "            rmv = self._rmv if self._is_rmv_implemented else self.rmv\n",
+     "            rmv = self._mv\n", 1),
+    ("c11_rmv_no_shape_check", "C11", "xitorch/_core/linop.py",
+     "        if x.shape[-1] != self.shape[-2]:\n", "        if False:\n", 1),
+    ("c11_m_hermitian_unchecked", "C11", "xitorch/_core/linop.py",
+     "        elif is_hermitian:\n            # check the hermitian\n",
+     "        elif False:\n            # check the hermitian\n", 1),
+    ("c11_adjoint_private_rmv", "C11", "xitorch/_core/linop.py",
+     "        return self.obj.rmv(x)\n", "        return self.obj._rmv(x)\n", 1),
+    ("c11_matmul_shape_unchecked", "C11", "xitorch/_core/linop.py",
+     "        if self.shape[-1] != b.shape[-2]:\n", "        if False:\n", 1),
+    ("c11_hermitian_rmm_shortcut_wrong", "C11", "xitorch/_core/linop.py",
+     "        if self._is_hermitian:\n            return self.mm(x)\n",
+     "        if self.shape[-1] == self.shape[-2]:\n            return self.mm(x)\n", 1),
+    ("c11_nofa_init_subclass", "C11", "xitorch/_core/linop.py",
+     "    def __new__(cls, *args, **kwargs):\n        # check the implemented functions in the class\n",
+     "    def __init_subclass__(cls, **kwargs):\n        super().__init_subclass__(**kwargs)\n"
+     "        cls._is_mv_implemented = cls.__check_if_implemented(\"_mv\")\n"
+     "        cls._is_mm_implemented = cls.__check_if_implemented(\"_mm\")\n"
+     "        cls._is_rmv_implemented = cls.__check_if_implemented(\"_rmv\")\n"
+     "        cls._is_rmm_implemented = cls.__check_if_implemented(\"_rmm\")\n"
+     "        cls._is_fullmatrix_implemented = cls.__check_if_implemented(\"_fullmatrix\")\n"
+     "        cls._is_gpn_implemented = cls.__check_if_implemented(\"_getparamnames\")\n"
+     "        cls._implementation_checked = True\n\n"
+     "    def __new__(cls, *args, **kwargs):\n        # check the implemented functions in the class\n", 0),
 ]
 
 
@@ -152,8 +195,17 @@ def main():
         finally:
             shutil.rmtree(tmp, ignore_errors=True)
     out = os.path.join(HERE, "mutants_last.json")
+    prev = []
+    if os.path.exists(out):
+        try:
+            prev = json.load(open(out))
+        except Exception:
+            prev = []
+    done = set(r["mutant"] for r in results)
+    merged = [r for r in prev if r["mutant"] not in done] + results
+    merged.sort(key=lambda r: (r["property"], r["mutant"]))
     with open(out, "w") as f:
-        json.dump(results, f, indent=1)
+        json.dump(merged, f, indent=1)
     bad = [r for r in results if not r["ok"]]
     print("%d/%d as expected" % (len(results) - len(bad), len(results)))
     return 1 if bad else 0
